@@ -304,14 +304,27 @@ Definition mm_model veqb genabled next (a m : stensor) : res (ptensor R) :=
   einsum_model veqb genabled next [a; m] [[0; 1]; [1; 2]] [0; 2].
 
 (** * (d) the argmax variant: pointers *)
-(** [index_to_vaxis] after the output indices have been popped; [None] = KeyError (an output index
-    that is repeated or does not occur in the inputs) *)
-Fixpoint pop_all (output : list nat) (i2v : list (nat * axis)) : option (list (nat * axis)) :=
+(** [index_to_vaxis] after [output_vaxes = tuple(index_to_vaxis[index].clone(subst) ...)] and
+    [for index in output: index_to_vaxis.pop(index, None)] (repaired in /repo 3f6a623): [None] =
+    KeyError, only for an output index that does not occur in the inputs; a repeated output index
+    is popped once and ignored the second time *)
+Fixpoint pop_each (output : list nat) (i2v : list (nat * axis)) : list (nat * axis) :=
+  match output with
+  | [] => i2v
+  | l :: output' => pop_each output' (filter (fun le => negb (Nat.eqb (fst le) l)) i2v)
+  end.
+Definition pop_all (output : list nat) (i2v : list (nat * axis)) : option (list (nat * axis)) :=
+  if forallb (fun l => match lassoc l i2v with Some _ => true | None => false end) output
+  then Some (pop_each output i2v) else None.
+
+(** the code before 3f6a623 ([index_to_vaxis.pop(index)] inside the generator): KeyError also on
+    the second occurrence of a repeated output index (F24); kept as a record only *)
+Fixpoint pop_all_old (output : list nat) (i2v : list (nat * axis)) : option (list (nat * axis)) :=
   match output with
   | [] => Some i2v
   | l :: output' =>
       match lassoc l i2v with
-      | Some _ => pop_all output' (filter (fun le => negb (Nat.eqb (fst le) l)) i2v)
+      | Some _ => pop_all_old output' (filter (fun le => negb (Nat.eqb (fst le) l)) i2v)
       | None => None
       end
   end.
